@@ -47,9 +47,11 @@ def agent_rows(pattern="C*-agent*"):
             verdicts.append("%s: %s (%s violations, %ss)" % (k.split(":")[0], v, c.get("violations"), int(c.get("wall_s", 0))))
         own = meta.get("property", "?")
         final = any(c.get("caught") for k, c in checks.items())
-        at_first = all(((next((h for h in hist if h["check"] == k), None) or c).get("caught")) for k, c in checks.items() if k.startswith(own)) and final
+        pre = meta.get("strengthened_before_first_run")
+        at_first = all(((next((h for h in hist if h["check"] == k), None) or c).get("caught")) for k, c in checks.items() if k.startswith(own)) and final and not pre
         rows.append((name, own, short(meta.get("summary", ""), 230), short(meta.get("needs", ""), 200),
-                     "yes" if conf.get("confirmed") else ("n/a" if meta.get("kind") == "revert-of-fix" else "NO"), "; ".join(verdicts) or "not run",
+                     "yes" if conf.get("confirmed") else ("n/a" if meta.get("kind") == "revert-of-fix" else "NO"),
+                     ("; ".join(verdicts) or "not run") + (" — check strengthened before this first run (counted as missed at first)" if pre else ""),
                      final, at_first))
     return rows
 
@@ -91,6 +93,15 @@ def main():
     out.append("")
     out.append("%d confirmed agent changes; %d were caught by the quick tier at the first attempt, %d are caught now (after the strengthening listed above).\n"
                % (len(ar), sum(1 for r in ar if r[7]), sum(1 for r in ar if r[6])))
+    out.append("| Round | changes | caught at the first attempt | caught now |")
+    out.append("|---|---|---|---|")
+    for rn, suffix in ((1, "-agent"), (2, "-agent2"), (3, "-agent3"), (4, "-agent4"), (5, "-agent5")):
+        rs = [r for r in ar if r[0].endswith(suffix)]
+        if rs:
+            out.append("| %d | %d | %d | %d |" % (rn, len(rs), sum(1 for r in rs if r[7]), sum(1 for r in rs if r[6])))
+    out.append("")
+    out.append("(Each round was run against the checks as strengthened after the previous one; every round asked for a mechanism "
+               "different from those already tried, so later rounds probe further corners, not the same ones again.)\n")
     out.append("### 6.2 Reverts of the fix commits\n")
     out.append("| Seed | Property | Change | Quick check |")
     out.append("|---|---|---|---|")
